@@ -74,6 +74,9 @@ class Delegation:
         self.pool_id = pool_id
         if aformat != DelegationFormat.SinglePool:
             assert pool_id is not None
+            if pool_id == ABCPropertyGraphConstants.SINGLE_POOL_NAME:
+                # in the encoded form this name marks a delegation without a pool
+                raise DelegationException(msg=f'Pool cannot be named {pool_id}, the name is reserved')
 
     def get_delegation_type(self) -> DelegationType:
         return self.type
